@@ -151,6 +151,10 @@ func RegisterProprietaryMACCommand(uplink bool, cid CID, payloadSize int) error 
 		return fmt.Errorf("lorawan: invalid CID %x", byte(cid))
 	}
 
+	if payloadSize < 0 {
+		return fmt.Errorf("lorawan: invalid payload size %d", payloadSize)
+	}
+
 	if payloadSize == 0 {
 		// no need to register the payload size
 		return nil
